@@ -482,6 +482,7 @@ func init() {
 		return len(c.hdr) + 1 + c.r.Intn(len(c.doc)-len(c.hdr)-1)
 	}))
 	add("fail_at_end", false, failIn(func(c *mctx) int { return len(c.doc) }))
+	add("fail_at_end_multi", true, failIn(func(c *mctx) int { return len(c.doc) }))
 	add("fail_at_segment_boundary", true, failIn(func(c *mctx) int { return len(c.hdr) + len(c.segs[0]) }))
 	add("fail_after_boundary_byte", true, failIn(func(c *mctx) int { return len(c.hdr) + len(c.segs[0]) + 1 }))
 	add("fail_in_last_segment", true, failIn(func(c *mctx) int { return len(c.doc) - 1 - c.r.Intn(len(c.segs[len(c.segs)-1])-1) }))
@@ -841,6 +842,15 @@ func gen(ctx *core.Ctx) {
 			}
 		}
 	}
+	// a source that fails exactly at the end of a document whose only segment is FULL (S bytes of
+	// plaintext: no look-ahead byte was read), every way of delivering the error
+	for mi, fm := range []string{"", "data_sticky", "data_once_eof", "data_once_continue"} {
+		if !ctx.Thorough && mi%2 != int(ctx.Seed)%2 {
+			continue
+		}
+		must(input{Recipe: "fail_at_end", Cph: 1 + mi%2, Kw: 1 + r.Intn(5), K: "mykey", P: encx.PSeq(r.Intn(256), encx.S), Seed: r.U64(),
+			Style: styles[r.Intn(4)], Big: true, FailMode: fm, FailErr: encx.FailNames[(mi+int(ctx.Seed))%len(encx.FailNames)]})
+	}
 	// position binding beyond any practical document size, through the hook file
 	if err := addHooks(ctx, hookInputs(r, ctx.Thorough)); err != nil {
 		fmt.Fprintln(os.Stderr, "c02:", err)
@@ -868,8 +878,23 @@ func gen(ctx *core.Ctx) {
 			in := input{Recipe: name, Cph: 1 + k%2, Kw: 1 + r.Intn(5), K: "mykey", P: encx.PSeq(r.Intn(256), n), Seed: r.U64(),
 				Style: styles[r.Intn(4)], Big: true}
 			if strings.HasPrefix(name, "fail_") {
-				in.FailErr = encx.FailNames[k%len(encx.FailNames)]
-				in.FailMode = []string{"", "data_sticky", "data_once_eof", "data_once_continue"}[(k/2)%4]
+				// every way of delivering the error at every multi-segment offset class; at the very end
+				// of the document both with a FULL final segment (2S) and with a short one
+				for mi, fm := range []string{"", "data_sticky", "data_once_eof", "data_once_continue"} {
+					in.FailErr = encx.FailNames[(k+mi)%len(encx.FailNames)]
+					in.FailMode = fm
+					in.Seed = r.U64()
+					if name == "fail_at_end_multi" {
+						in.P = encx.PSeq(r.Intn(256), []int{2 * S, 2*S + 5, 2 * S, S + 1}[mi])
+						if mi == 2 {
+							in.FailMode = ""
+							in.OneRead = false
+							in.FailErr = "unexpected_eof"
+						}
+					}
+					must(in)
+				}
+				continue
 			}
 			must(in)
 		}
